@@ -5,8 +5,10 @@ import (
 	"net/http"
 	"net/netip"
 	"net/url"
+	"time"
 
 	"github.com/IrineSistiana/mosproxy/internal/verifrt"
+	"github.com/quic-go/quic-go"
 )
 
 type vRespWriter struct {
@@ -152,4 +154,55 @@ func VerifH_C15_HTTPRefused() {
 	} else {
 		verifrt.Assert(len(w.bodies) == 1, "an admitted query is answered")
 	}
+}
+
+// ---- DoQ listener: one stream, one query
+
+type vQStream struct {
+	quic.Stream
+	in     []byte
+	pos    int
+	writes [][]byte
+	closed int
+}
+
+func (s *vQStream) Read(p []byte) (int, error) {
+	if s.pos >= len(s.in) {
+		return 0, io.EOF
+	}
+	n := copy(p, s.in[s.pos:])
+	s.pos += n
+	return n, nil
+}
+func (s *vQStream) Write(p []byte) (int, error) {
+	s.writes = append(s.writes, append([]byte(nil), p...))
+	return len(p), nil
+}
+func (s *vQStream) Close() error                      { s.closed++; return nil }
+func (s *vQStream) CancelRead(quic.StreamErrorCode)   {}
+func (s *vQStream) CancelWrite(quic.StreamErrorCode)  {}
+func (s *vQStream) SetReadDeadline(t time.Time) error { return nil }
+
+// VerifH_C03_QuicStream: a DoQ stream carrying one length-prefixed query gets exactly one length-prefixed
+// response; a stream whose bytes do not decode gets nothing.
+func VerifH_C03_QuicStream() {
+	verifrt.Unwind(300)
+	verifrt.CtxNoExpiry = true
+	up := &vKeyedUpstream{}
+	r := vRouter([]*rule{{upstream: &upstreamWrapper{tag: "up", u: up}}}, false)
+	s := &quicServer{r: r, idleTimeout: 1}
+	frame := vFrame(vQueryMsg(0x4242, 'k', false, 0))
+	cut := verifrt.Concrete(verifrt.IntRange("truncate", 0, len(frame)))
+	st := &vQStream{in: frame[:cut]}
+	remote := netip.AddrPortFrom(netip.AddrFrom4([4]byte{198, 51, 100, 3}), 4444)
+	s.handleStream(st, &vQConn{}, remote, netip.AddrPort{})
+	verifrt.Reach("handled")
+	if cut < len(frame) {
+		verifrt.Assert(len(st.writes) == 0 && up.calls == 0, "an incomplete / undecodable stream gets no response and is not forwarded")
+		return
+	}
+	verifrt.Reach("answered")
+	bodies := vCheckFrames(st.writes)
+	verifrt.Assert(len(bodies) == 1, "exactly one response frame per query")
+	vCheckResponse(bodies[0], 0x4242, 'k', true)
 }
